@@ -357,6 +357,7 @@ def run(world, inc, lab_dir, disk_dir, t0):
         tracer = Tracer(nb, pkg, plan=plan, budget=world.get("budget_steps"),
                         record=world.get("record_lines"), state=_State(ctx))
         ctx.tracer = tracer
+        tracer.on_signal = lambda: setattr(disk, "signal_base", disk.n)
         if world.get("opcode_funcs"):
             tracer.opcode_funcs = set(world["opcode_funcs"])
             tracer.record_ops = bool((world.get("record_lines") or {}).get("compact"))
